@@ -199,10 +199,8 @@ impl Property for C11 {
                 None => finish(&mut w, pid, kind),
             }
             if w.ops[op].res.is_none() && keep.get(&i).is_none() {
-                o.fail = Some(Failure {
-                    sig: "C11/operation-not-completed".into(),
-                    msg: format!("operation #{} acknowledged but still pending", i + 1),
-                });
+                // whether an acknowledged operation completes is C05's claim, not C11's
+                o.excluded.push("operation acknowledged but still pending (not judged here)".into());
                 break;
             }
         }
